@@ -348,7 +348,7 @@ def kind_a(report):
 def check(argv):
     tier, seed = env_tier_seed(argv)
     report = Report("C10", tier, seed, "other", f"./vt check C10 --tier {tier}")
-    kind_a(report)
+    report.guarded("dimension-loop obligation", kind_a, report)
     kind_c(report, tier)
     report.assumptions = ["kernel entry is observed by wrapping TensorMethod._evaluate (instrumentation in the checking process, no repository change)"]
     return report.finish(explanation="Kind A: the dimension-consistency loop of TensorMethod.__call__ (extracted from the real source each run) completes iff all participants of an "
